@@ -192,6 +192,15 @@ func (s *CollapsingLowestDenseStore) Clear() {
 	s.isCollapsed = false
 }
 
+func (s *CollapsingLowestDenseStore) Reweight(w float64) error {
+	err := s.DenseStore.Reweight(w)
+	if s.IsEmpty() {
+		// All the counts may have underflowed to zero.
+		s.isCollapsed = false
+	}
+	return err
+}
+
 func (s *CollapsingLowestDenseStore) DecodeAndMergeWith(r *[]byte, encodingMode enc.SubFlag) error {
 	return DecodeAndMergeWith(s, r, encodingMode)
 }
